@@ -716,6 +716,17 @@ def _strip_ifdef(text):
     return "\n".join(out)
 
 
+def _image_by_cpu(p):
+    """{(header id, segment): {byte address: byte}}: records of another target (of another granularity) never collide."""
+    img = {}
+    for rc in codefile.parse(p).records:
+        m = img.setdefault((rc.cpu, rc.seg), {})
+        base = rc.start * rc.gran
+        for i, v in enumerate(rc.data):
+            m[base + i] = v
+    return img
+
+
 def passleak_pairs():
     from . import c18
     names = sorted(c18.PROBES)
@@ -735,13 +746,11 @@ def run_passleak(sim, case, acc):
         pname, si = pairs[pi]
         probe = _strip_ifdef(c18.PROBES[pname])
         setter = c18.SETTERS[si]
-        if "export_sym" in setter or "extern_sym" in setter:
-            continue  # these setters emit code of another granularity over the probe's addresses
         if pname not in solo:
             r, san = sim.run("asl", asl_scenario(probe.encode("latin1"), 0, 24), "plain")
             acc["runs"] += 1
             p = r.get("/w/a.p")
-            solo[pname] = codefile.image(codefile.parse(p))[0] if (r.outcome == "exit:0" and p) else None
+            solo[pname] = _image_by_cpu(p) if (r.outcome == "exit:0" and p) else None
         if solo[pname] is None:
             acc["stats"]["probe_rejected"] = acc["stats"].get("probe_rejected", 0) + 1
             continue
@@ -777,7 +786,7 @@ def run_passleak(sim, case, acc):
             elif m != base[2]:
                 vio.append(("C01/late-state/extra-pass-changes-symbols/%s" % fam, "%s followed by %r: MAP symbols change under %d forced extra pass(es)" % (pname, setter, e), pname, si))
         try:
-            img = codefile.image(codefile.parse(base[1]))[0]
+            img = _image_by_cpu(base[1])
             bad = None
             for seg, mem in solo[pname].items():
                 for a, v in mem.items():
@@ -788,8 +797,8 @@ def run_passleak(sim, case, acc):
                     break
             if bad:
                 vio.append(("C01/late-state/reaches-earlier-code/%s" % fam,
-                            "%s followed by %r (%d passes): byte at segment %d address $%x is %r, the same text alone gives %r"
-                            % (pname, setter, base[3], bad[0], bad[1], bad[3], bad[2]), pname, si))
+                            "%s followed by %r (%d passes): byte at (target, segment) %r address $%x is %r, the same text alone gives %r"
+                            % (pname, setter[:60], base[3], bad[0], bad[1], bad[3], bad[2]), pname, si))
         except codefile.FormatError as ex:
             vio.append(("C01/malformed-code-file", str(ex), pname, si))
     seen = {}
